@@ -18,7 +18,7 @@ SIZE_NAMES = ('size', 'align', 'count', 'len', 'alignment', 'capacity', 'n', 'ad
 
 def run(ctx):
     fx = ctx.facts("default")
-    fixtures.run(ctx, ['linear', 'taint', 'commit'])
+    fixtures.run(ctx, ['linear', 'taint', 'commit', 'relink', 'viewcursor'])
     # (1) request sizes are untrusted integers for the allocator entry points
     cl = taint.new_closure(fx)
     n = 0
@@ -66,6 +66,7 @@ def run(ctx):
     ctx.floor("R-LINEAR.sites", 10)   # Option/Result/ControlFlow/bare SecureChunk locals produced by calls (containers and references are not owners)
     # (4b) a refused request leaves the cursor untouched: no atomic RMW decides its own refusal without being undone
     rmw = 0
+    nrel = 0
     for f in FILES:
         for fid in fx.fn_ids(f):
             if '::tests::' in fid:
@@ -73,8 +74,16 @@ def run(ctx):
             fnc = Fn(fx.raw(fid))
             rmw += sum(1 for b, op, fld, c in sync.atomic_sites(fnc) if op in ("fetch_add", "fetch_sub", "swap"))
             sync.commit_before_check(ctx, fnc)
+            nrel += sync.push_relink(ctx, fnc, fx=fx)
     ctx.instance("R-COMMIT.rmw_sites", rmw)
     ctx.floor("R-COMMIT.rmw_sites", 40)
+    ctx.instance("R-ABA.relink.pushes", nrel)
+    ctx.floor("R-ABA.relink.pushes", 4)
+    # (4c) a recycled mmap region is as long as the request it is handed out for
+    linear.view_capacity(ctx, fx, "memory::mmap::MmapAllocation", "size", "actual_size", ["src/memory/mmap.rs"])
+    ctx.floor("R-VIEW.constructions", 2)
+    # (4d) the end-of-chunk carve of the five-level pool refuses on the cursor it advances
+    linear.guard_on_cursor(ctx, fx, "memory::five_level_pool::NoLockingPool::alloc_from_end")
     # (5) who may drop an arena
     linear.arena(ctx, fx, FILES)
     ctx.floor("R-ARENA.arena_types", 5)
